@@ -567,6 +567,8 @@ class Interp:
                 return self.B.str_format_percent(self, a, b)
             if isinstance(op, ast.Add) and self.B.is_strlike(b):
                 return self.B.concat_strs(self, [self.ctx.to_val(a), self.ctx.to_val(b)])
+            if isinstance(op, ast.Add) and (b is None or isinstance(b, (bool, int, float, VTuple, VList, VDict, VSet)) or (isinstance(b, SV) and isinstance(b.ty, (TNum, TBool, TNone)))):
+                raise PyRaise(self.make_exception(ExternalRef("TypeError"), ["can only concatenate str (not a number / None / container) to str"]))
             raise Unsupported("string operator %s" % op.__class__.__name__)
         if isinstance(a, (VTuple, VList)) and isinstance(b, (VTuple, VList)) and isinstance(op, ast.Add):
             return a.__class__(a.items + b.items)
